@@ -20,6 +20,7 @@ type C12Case struct {
 	Wrapped   bool           `json:"wrapped,omitempty"`
 	Unordered bool           `json:"unordered,omitempty"`
 	Form      string         `json:"form"`
+	Repeats   int            `json:"repeats,omitempty"` // re-executions (default 2)
 	Position  string         `json:"position"`
 	// Mixed (form "mixed-kinds"): the values of column g of table t, as tokens "<go type>:<text>"; the
 	// document is built from them at check time because JSON cannot carry Go types. Column v numbers the rows.
@@ -306,6 +307,43 @@ func genC12(t *rapid.T) any {
 		}[c.Position]
 		return c12WithBetween(t, c)
 	}
+	if rapid.IntRange(0, 11).Draw(t, "orderedwindow") == 0 {
+		// a source whose row order is open (joins, grouping) under a total ORDER BY and a LIMIT / OFFSET window with
+		// ties on the leading key across the window's ends: the same rows in the same order on every run
+		n := rapid.IntRange(6, 40).Draw(t, "ow.n")
+		var rows, rows2 []any
+		ng := rapid.IntRange(1, 3).Draw(t, "ow.groups")
+		for i := 0; i < n; i++ {
+			rows = append(rows, map[string]any{"id": float64(i), "g": float64(rapid.IntRange(0, ng-1).Draw(t, fmt.Sprintf("ow.g%d", i)))})
+			rows2 = append(rows2, map[string]any{"id": float64(i), "n": float64((i*7 + 3) % n * 2)})
+		}
+		if n%7 == 0 {
+			// (i*7+3) mod n is not a permutation then: fall back to distinct values in source order
+			for i := range rows2 {
+				rows2[i].(map[string]any)["n"] = float64(n - i)
+			}
+		}
+		lim := rapid.IntRange(1, n-1).Draw(t, "ow.limit")
+		off := 0
+		if rapid.Bool().Draw(t, "ow.hasoffset") {
+			off = rapid.IntRange(1, n-lim).Draw(t, "ow.offset")
+		}
+		win := fmt.Sprintf(" LIMIT %d", lim)
+		if off > 0 {
+			win += fmt.Sprintf(" OFFSET %d", off)
+		}
+		dir := rapid.SampledFrom([]string{"", " DESC"}).Draw(t, "ow.dir")
+		pos := rapid.SampledFrom([]string{"join", "hash-join", "left-join", "parallel-join", "group-by", "join-three-keys"}).Draw(t, "ow.pos")
+		sql := map[string]string{
+			"join":            "SELECT x.g AS g, y.n AS n FROM t x JOIN t2 y ON x.id = y.id ORDER BY g" + dir + ", n",
+			"hash-join":       "SELECT x.g AS g, y.n AS n FROM t x HASH_JOIN t2 y ON x.id = y.id ORDER BY g" + dir + ", n DESC",
+			"left-join":       "SELECT x.g AS g, y.n AS n FROM t x LEFT JOIN t2 y ON x.id = y.id ORDER BY g" + dir + ", n",
+			"parallel-join":   "SELECT x.g AS g, y.n AS n FROM t x PARALLEL JOIN t2 y ON x.id = y.id ORDER BY g" + dir + ", n",
+			"group-by":        "SELECT g, id, COUNT(*) AS c FROM t GROUP BY g, id ORDER BY g" + dir + ", id DESC",
+			"join-three-keys": "SELECT x.g AS g, x.g AS h, y.n AS n FROM t x JOIN t2 y ON x.id = y.id ORDER BY g" + dir + ", h, n",
+		}[pos] + win
+		return c12WithBetween(t, &C12Case{Doc: map[string]any{"t": rows, "t2": rows2}, SQL: sql, Form: "ordered-window", Position: pos, Repeats: 8})
+	}
 	if rapid.IntRange(0, 3).Draw(t, "wide") == 0 {
 		w := genWide(t, nil)
 		return c12WithBetween(t, &C12Case{Doc: w.Doc, SQL: w.SQL(-1, ""), Wrapped: w.Wrapped, Unordered: w.Unordered, Form: "wide", Position: w.Construct})
@@ -478,6 +516,9 @@ func checkC12(c *C12Case) Result {
 		return res
 	}
 	repeats := 2
+	if c.Repeats > 0 {
+		repeats = c.Repeats
+	}
 	if c.Mixed != nil {
 		repeats = 24 // choices that depend on the iteration order of a Go map show up in a fraction of the runs only
 	}
@@ -533,7 +574,7 @@ func init() {
 	Register(&Prop{
 		ID:    "C12",
 		Title: "Results are plain self-contained data and evaluation is deterministic",
-		Rule: "rapid draws a document and (2/3) one of 70 expression forms (columns, bracket and continued selectors over per-row arrays of different lengths, literals of every kind, arithmetic, unary, comparisons, IN, BETWEEN, LIKE, " +
+		Rule: "(1/12 of the cases: form ordered-window - joins of 6-40 rows per side and groupings, whose row order is open, under a total multi-key ORDER BY with a LIMIT / OFFSET window and ties on the leading key, re-executed 8 times and compared as sequences.) rapid draws a document and (2/3) one of 70 expression forms (columns, bracket and continued selectors over per-row arrays of different lengths, literals of every kind, arithmetic, unary, comparisons, IN, BETWEEN, LIKE, " +
 			"IS, NOT, AND/OR, CASE with and without ELSE, built-in and user function calls, nested calls, subqueries, ASYNC / ONCE / SPIN / SPINASYNC " +
 			"calls, SETVAR/GETVAR, FUSE, CONSTANT, 14 built-ins with NULL / missing arguments) placed in one of 24 positions (select item aliased/unaliased, function argument, array element, " +
 			"CASE branch/else/condition, IN list, WHERE, subquery select list, grouped select list, HAVING, joined select list, CTE and derived-table " +
